@@ -58,6 +58,7 @@ def run(ctx) -> None:
     rep.rule("C15.R3", "every Semaphore construction is guarded by 'no limiter installed'", floor=2)
     rep.rule("C15.R4", "every installed limiter token is reset on all exits", floor=2)
     rep.rule("C15.R5", "the limiter is installed before map item tasks are created", floor=1)
+    rep.rule("C15.R7", "the limit only bounds open node bodies: it never decides which ready nodes belong to a superstep", floor=2)
     rep.rule("C15.R6", "the bounded map returns the same list as the unbounded one: results restored to input order", floor=3)
 
     run_like = set(template_methods(db, "run") + template_methods(db, "map") + superstep_funcs(db) + execute_impl_funcs(db))
@@ -256,6 +257,11 @@ def run(ctx) -> None:
                 rep.add("C15.R3", f"{f.qname}:Semaphore", ok, f"{f.module.rel}:{c.lineno}", why if ok else f"a second limiter can be created inside an existing call tree ({why}): the bound becomes per-run instead of global")
     if n_sem < 2:
         raise AnalysisError(f"only {n_sem} Semaphore constructions found")
+
+    # ---- R7 ---------------------------------------------------------------------
+    from .c03 import check_ready_list_provenance
+
+    check_ready_list_provenance(ctx, "C15.R7")
 
     # ---- R6 ---------------------------------------------------------------------
     from .c10 import check_async_map_order
